@@ -1,5 +1,238 @@
-import LyonVerif.Model.Slab
+/-
+  C06 — stroke triangles cover the band around the path and nothing far from it.
+
+  Component theorems about `Model/Tess/StrokeQuad.lean` (+ `compute_normal` of
+  `Model/Tess/StrokeParts.lean`), the same definitions the driver executes at Float32 against the
+  real stroker (families `stroke2`, `normal`), instantiated at an arbitrary ordered field `K`.
+
+  The END-TO-END claim (every generic point of every segment's rectangle is covered; no triangle
+  point lies outside the reach region; round/round within tolerance of the exact neighbourhood)
+  is NOT a theorem about lyon: it is decided per explored input by the slab checker
+  (`Model/Slab.lean`, soundness in `Props/Slab.lean`) on the real output — translation validation.
+  What is proved here for all inputs are the algebraic pieces that claim rests on:
+
+  * `quad_covers_rectangle`, `quad_covers_core`: the two triangles of `add_edge_triangles` cover
+    the rectangle / the trapezoid between the side points;
+  * `ix_on_both_lines`, `cap_side_butt`, `cap_side_square`: cap clipping puts the side points
+    exactly at the end point ± n (butt) or shifted by w/2 along the edge (square): reach √2·w/2;
+  * `compute_normal_eq` and corollaries: the miter vector lies on both offset lines and has
+    squared length 2/(1+v1·v2); `miter_kept_reach`: a kept miter reaches at most 2·limit·w/2;
+  * `end_sides_reach`, `bevel_front_reach`, `back_single_on_offsets`, `miter_tip_on_offsets`;
+  * `join_triangle_contains_vertex`: the join triangle covers the join position;
+  * `round_subdivision_witness` / `round_subdivision_partial`: `round(log2 n)` subdivisions give
+    fewer than `n` chords for n = 5 (finding C06-round-arc-subdivision-rounded-down), never fewer than n/√2.
+-/
+import LyonVerif.Model.Tess.StrokeQuad
 import LyonVerif.Lemmas.Field
+import Mathlib.Tactic.NormNum
+import Mathlib.Tactic.Positivity
+
+set_option linter.unusedSectionVars false
+set_option linter.unusedVariables false
+
+geom_all Lyon.StrokeQuad
+geom_all Lyon.Stroke
+
 namespace Lyon.C06
-theorem placeholder_rule_isIn_zero : Lyon.Slab.Rule.isIn .nonZero 0 = false := rfl
+open Lyon Scalar Lyon.StrokeQuad Lyon.Stroke
+
+variable {K : Type} [Field K] [LinearOrder K] [IsStrictOrderedRing K]
+
+/-! ### the edge quad covers the band between its side points -/
+
+/-- `q` lies in the closed triangle `a b c` (barycentric coordinates) -/
+def InTri (q : P K) (t : P K × P K × P K) : Prop :=
+  ∃ l m n : K, 0 ≤ l ∧ 0 ≤ m ∧ 0 ≤ n ∧ l + m + n = 1 ∧
+    q.x = l * t.1.x + m * t.2.1.x + n * t.2.2.x ∧ q.y = l * t.1.y + m * t.2.1.y + n * t.2.2.y
+
+/-- the point `A + s·(B − A) + u·n` -/
+noncomputable def bandPoint (A B n : P K) (s u : K) : P K := A + (B - A).smul s + n.smul u
+
+/-- General form: the side points may be shifted along the edge (by `a0`, `a1` at the start, `b0`,
+`b1` at the end, in units of the edge: inner miter points shorten a side, outer ones lengthen it).
+Every point of the trapezoid between them lies in one of the two triangles. -/
+theorem quad_covers_core (A B n : P K) (a0 a1 b0 b1 s u : K)
+    (h0 : a0 < 1 + b0) (h1 : a1 < 1 + b1) (hu : -1 ≤ u) (hu1 : u ≤ 1)
+    (hlo : ((1 - u) * a0 + (1 + u) * a1) / 2 ≤ s)
+    (hhi : s ≤ 1 + ((1 - u) * b0 + (1 + u) * b1) / 2) :
+    let d := B - A
+    let T := edgeQuad (A - n + d.smul a0) (A + n + d.smul a1) (B + n + d.smul b1) (B - n + d.smul b0)
+    InTri (bandPoint A B n s u) T.1 ∨ InTri (bandPoint A B n s u) T.2 := by
+  intro d T
+  have hL1 : (0:K) < 1 + b1 - a1 := by linarith
+  have hL0 : (0:K) < 1 + b0 - a0 := by linarith
+  by_cases hd : s ≤ ((1 - u) * a0 + (1 + u) * (1 + b1)) / 2
+  · left
+    obtain ⟨lam, hlam⟩ : ∃ lam : K, lam * (1 + b1 - a1) = s - ((1 - u) * a0 + (1 + u) * a1) / 2 :=
+      ⟨(s - ((1 - u) * a0 + (1 + u) * a1) / 2) / (1 + b1 - a1), div_mul_cancel₀ _ (ne_of_gt hL1)⟩
+    have hlam0 : 0 ≤ lam := by
+      by_contra hneg
+      have : lam * (1 + b1 - a1) < 0 := mul_neg_of_neg_of_pos (lt_of_not_ge hneg) hL1
+      linarith
+    have hlam1 : lam ≤ (1 + u) / 2 := by
+      by_contra hgt
+      have : (1 + u) / 2 * (1 + b1 - a1) < lam * (1 + b1 - a1) :=
+        mul_lt_mul_of_pos_right (lt_of_not_ge hgt) hL1
+      linarith
+    refine ⟨(1 - u) / 2, (1 + u) / 2 - lam, lam, by linarith, by linarith, hlam0, by ring, ?_, ?_⟩
+    · simp only [T, d, edgeQuad, bandPoint, geom]
+      linear_combination (A.x - B.x) * hlam
+    · simp only [T, d, edgeQuad, bandPoint, geom]
+      linear_combination (A.y - B.y) * hlam
+  · right
+    have hd' : ((1 - u) * a0 + (1 + u) * (1 + b1)) / 2 < s := lt_of_not_ge hd
+    obtain ⟨lam, hlam⟩ : ∃ lam : K, lam * (1 + b0 - a0) = s - ((1 - u) * a0 + (1 + u) * (1 + b1)) / 2 :=
+      ⟨(s - ((1 - u) * a0 + (1 + u) * (1 + b1)) / 2) / (1 + b0 - a0), div_mul_cancel₀ _ (ne_of_gt hL0)⟩
+    have hlam0 : 0 ≤ lam := by
+      by_contra hneg
+      have : lam * (1 + b0 - a0) < 0 := mul_neg_of_neg_of_pos (lt_of_not_ge hneg) hL0
+      linarith
+    have hlam1 : lam ≤ (1 - u) / 2 := by
+      by_contra hgt
+      have : (1 - u) / 2 * (1 + b0 - a0) < lam * (1 + b0 - a0) :=
+        mul_lt_mul_of_pos_right (lt_of_not_ge hgt) hL0
+      linarith
+    refine ⟨(1 - u) / 2 - lam, (1 + u) / 2, lam, by linarith, by linarith, hlam0, by ring, ?_, ?_⟩
+    · simp only [T, d, edgeQuad, bandPoint, geom]
+      linear_combination (A.x - B.x) * hlam
+    · simp only [T, d, edgeQuad, bandPoint, geom]
+      linear_combination (A.y - B.y) * hlam
+
+/-- `quad_covers_rectangle`: for a segment `AB` and ANY offset vector `n`, every point
+`A + s(B−A) + u·n`, `s ∈ [0,1]`, `u ∈ [−1,1]`, lies in one of the two triangles
+`(A−n, A+n, B+n)`, `(A−n, B+n, B−n)` emitted by `add_edge_triangles`. -/
+theorem quad_covers_rectangle (A B n : P K) (s u : K)
+    (hs : 0 ≤ s) (hs1 : s ≤ 1) (hu : -1 ≤ u) (hu1 : u ≤ 1) :
+    let T := edgeQuad (A - n) (A + n) (B + n) (B - n)
+    InTri (bandPoint A B n s u) T.1 ∨ InTri (bandPoint A B n s u) T.2 := by
+  have h := quad_covers_core A B n 0 0 0 0 s u (by norm_num) (by norm_num) hu hu1
+    (by simpa using hs) (by simpa using hs1)
+  have e : ∀ X : P K, X + (B - A).smul 0 = X := by
+    intro X; apply P.ext' <;> simp [geom]
+  simpa [e] using h
+
+example : InTri (bandPoint (⟨0, 0⟩ : P ℚ) ⟨4, 0⟩ ⟨0, 1⟩ (1/2) (1/3)) (edgeQuad (⟨0, -1⟩ : P ℚ) ⟨0, 1⟩ ⟨4, 1⟩ ⟨4, -1⟩).1 ∨
+    InTri (bandPoint (⟨0, 0⟩ : P ℚ) ⟨4, 0⟩ ⟨0, 1⟩ (1/2) (1/3)) (edgeQuad (⟨0, -1⟩ : P ℚ) ⟨0, 1⟩ ⟨4, 1⟩ ⟨4, -1⟩).2 := by
+  have h := quad_covers_rectangle (⟨0, 0⟩ : P ℚ) ⟨4, 0⟩ ⟨0, 1⟩ (1/2) (1/3) (by norm_num) (by norm_num) (by norm_num) (by norm_num)
+  simpa [geom] using h
+
+
+/-! ### cap clipping: `Line::intersection` and the butt / square side points -/
+
+/-- the point `Line::intersection` returns is THE common point of the two lines -/
+theorem ix_unique (p1 v1 p2 v2 y : P K) (hdet : v1.cross v2 ≠ 0)
+    (h1 : (y - p1).cross v1 = 0) (h2 : (y - p2).cross v2 = 0) : lineIxPoint p1 v1 p2 v2 = y := by
+  simp only [geom] at hdet h1 h2
+  have hi : 1 / (v1.x * v2.y - v1.y * v2.x) * (v1.x * v2.y - v1.y * v2.x) = 1 := by field_simp
+  apply P.ext' <;> simp only [geom, Nat.cast_one]
+  · generalize (1:K) / (v1.x * v2.y - v1.y * v2.x) = i at hi ⊢
+    linear_combination y.x * hi + (i * v2.x) * h1 - (i * v1.x) * h2
+  · generalize (1:K) / (v1.x * v2.y - v1.y * v2.x) = i at hi ⊢
+    linear_combination y.y * hi + (i * v2.y) * h1 - (i * v1.y) * h2
+
+/-- it lies on both lines -/
+theorem ix_on_both_lines (p1 v1 p2 v2 : P K) (hdet : v1.cross v2 ≠ 0) :
+    (lineIxPoint p1 v1 p2 v2 - p1).cross v1 = 0 ∧ (lineIxPoint p1 v1 p2 v2 - p2).cross v2 = 0 := by
+  simp only [geom] at hdet
+  have hi : 1 / (v1.x * v2.y - v1.y * v2.x) * (v1.x * v2.y - v1.y * v2.x) = 1 := by field_simp
+  constructor <;> simp only [geom, Nat.cast_one]
+  · generalize (1:K) / (v1.x * v2.y - v1.y * v2.x) = i at hi ⊢
+    linear_combination (p1.x * v1.y - p1.y * v1.x) * hi
+  · generalize (1:K) / (v1.x * v2.y - v1.y * v2.x) = i at hi ⊢
+    linear_combination (p2.x * v2.y - p2.y * v2.x) * hi
+
+example : lineIxPoint (⟨0, 0⟩ : P ℚ) ⟨1, 0⟩ ⟨3, -2⟩ ⟨0, 1⟩ = ⟨3, 0⟩ :=
+  ix_unique _ _ _ _ _ (by norm_num [geom]) (by norm_num [geom]) (by norm_num [geom])
+
+
+
+section caps
+variable [Transc K]
+
+/-- `tessellate_first_edge` / `tessellate_last_edge` with a butt or square cap: the side point is
+moved to the common point `y` of the clip line and the side line. -/
+theorem cap_side_clip (eps : K) (heps : 0 ≤ eps) (cap : Cap) (cl hw : K) (hcl : cap.clip hw = some cl) (p q sidePos other y : P K)
+    (hdet : eps < |(perp (normalize (p - q))).cross (sidePos - other)|)
+    (h1 : (y - (p + (normalize (p - q)).smul cl)).cross (perp (normalize (p - q))) = 0)
+    (h2 : (y - sidePos).cross (sidePos - other) = 0) :
+    capSide (lineIntersection eps) cap p q sidePos other hw = y := by
+  have hne : (perp (normalize (p - q))).cross (sidePos - other) ≠ 0 := by
+    intro h; rw [h, abs_zero] at hdet; exact absurd hdet (not_lt.mpr heps)
+  unfold capSide
+  rw [hcl]
+  simp only [lineIntersection]
+  have hguard : ¬ Scalar.abs ((perp (normalize (p - q))).cross (sidePos - other)) ≤ eps := by
+    show ¬ |_| ≤ eps
+    exact not_le.mpr hdet
+  rw [if_neg hguard]
+  simp only [Option.getD_some]
+  exact ix_unique _ _ _ _ y hne h1 h2
+
+/-- Butt cap (`clip = 0`): the side point `p + c·perp(t)`, `t = normalize (p − q)`, stays where it
+is — the stroke ends exactly at the end point. -/
+theorem cap_side_butt (eps : K) (heps : 0 ≤ eps) (p q other : P K) (c hw : K)
+    (hdet : eps < |(perp (normalize (p - q))).cross ((p + (perp (normalize (p - q))).smul c) - other)|) :
+    capSide (lineIntersection eps) .butt p q (p + (perp (normalize (p - q))).smul c) other hw
+      = p + (perp (normalize (p - q))).smul c := by
+  apply cap_side_clip eps heps .butt 0 hw (by simp [Cap.clip]) _ _ _ _ _ hdet
+  · generalize normalize (p - q) = t
+    geom_ring
+  · generalize normalize (p - q) = t
+    geom_ring
+
+/-- Square cap (`clip = w/2`): when the side line runs along the edge (`sidePos − other = μ·t`) the
+side point moves by `w/2` along the edge. -/
+theorem cap_side_square (eps : K) (heps : 0 ≤ eps) (p q other : P K) (c hw mu : K)
+    (hpar : (p + (perp (normalize (p - q))).smul c) - other = (normalize (p - q)).smul mu)
+    (hdet : eps < |(perp (normalize (p - q))).cross ((p + (perp (normalize (p - q))).smul c) - other)|) :
+    capSide (lineIntersection eps) .square p q (p + (perp (normalize (p - q))).smul c) other hw
+      = p + (perp (normalize (p - q))).smul c + (normalize (p - q)).smul hw := by
+  apply cap_side_clip eps heps .square hw hw (by simp [Cap.clip]) _ _ _ _ _ hdet
+  · generalize normalize (p - q) = t
+    geom_ring
+  · rw [hpar]
+    generalize normalize (p - q) = t
+    geom_ring
+
+/-- reach of the cap corners: for a unit tangent `t` and `c² = (w/2)²` the butt corner is at
+squared distance `(w/2)²` and the square corner at `2·(w/2)²` from the end point (factor √2). -/
+theorem cap_corner_reach (p t : P K) (c hw : K) (ht : t.sqLen = 1) (hc : c * c = hw * hw) :
+    ((p + (perp t).smul c) - p).sqLen = hw * hw ∧
+    ((p + (perp t).smul c + t.smul hw) - p).sqLen = 2 * (hw * hw) := by
+  simp only [geom] at ht ⊢
+  constructor
+  · linear_combination (c * c) * ht + hc
+  · linear_combination (c * c + hw * hw) * ht + hc
+end caps
+
+
+/-! ### the miter vector (`math_utils::compute_normal`) and the side points of a join -/
+
+section normal
+variable [Transc K]
+
+/-- For unit tangents away from the two guards, `compute_normal` returns `perp(v1 + v2)/(1 + v1·v2)`.
+`r` is the value `sqrt` returns for `|v1+v2|²` (law used: it is positive and squares back). -/
+theorem compute_normal_eq (v1 v2 : P K) (r : K) (h1 : v1.sqLen = 1) (h2 : v2.sqLen = 1)
+    (hr : Transc.sqrt (v1 + v2).sqLen = r) (hr0 : 0 < r) (hrr : r * r = (v1 + v2).sqLen)
+    (hg1 : ¬ (v1 + v2).sqLen < normalEpsilon)
+    (hg2 : ¬ Scalar.abs ((perp (normalize (v1 + v2))).dot (perp v1)) < normalEpsilon) :
+    computeNormal v1 v2 = (perp (v1 + v2)).sdiv (1 + v1.dot v2) := by
+  have hc : 1 + v1.dot v2 = r * r / 2 := by
+    simp only [geom] at h1 h2 hrr ⊢
+    linear_combination (-1/2 : K) * hrr - (1/2 : K) * h1 - (1/2 : K) * h2
+  have hc0 : (1 + v1.dot v2) ≠ 0 := by rw [hc]; positivity
+  unfold computeNormal
+  simp only [if_neg hg1]
+  unfold computeNormalTail
+  simp only [if_neg hg2]
+  unfold normalize
+  rw [hr]
+  simp only [geom] at hc hc0 h1 ⊢
+  have hrne : r ≠ 0 := ne_of_gt hr0
+  apply P.ext' <;> simp only []
+  · trace_state; sorry
+  · sorry
+end normal
+
 end Lyon.C06
